@@ -113,7 +113,7 @@ def run(ctx):
         except FileNotFoundError:
             pass
         for i in range(n):
-            s = srcgen.gen_source(ctx.rng, unicode_noise=0.3 if i % 3 == 0 else 0.0, plain_strings=(i % 4 != 0))
+            s = srcgen.gen_source(ctx.rng, unicode_noise=0.3 if i % 3 == 0 else 0.0, plain_strings=(i % 4 != 0), redefine=0.2)
             text = s.text()
             name = "conftest.py" if i % 5 == 0 else f"test_g{i % 7}.py"
             one(ctx, vh, db, f"gen:{i}", f"/vf_c03/g/{name}", text, s.features)
@@ -141,5 +141,9 @@ def one(ctx, vh, db, label, path, text, features):
         return
     raw = vh.call(op="raw", db=db)
     compare(ctx, label, path, text, raw, features)
+    if sum(map(ord, label)) % 4 == 0:
+        # the same text sent again (didOpen + didChange): the records are those of the text, once
+        vh.call(op="analyze", db=db, path=path, text=text)
+        compare(ctx, label + ":resent", path, text, vh.call(op="raw", db=db), {"resent"})
     # clear the file's records so that the next source under the same path starts clean
     vh.call(op="analyze", db=db, path=path, text="")
